@@ -122,6 +122,7 @@ type state struct {
 	cb       *cb
 	mgr      intdataplane.VerifC43Manager
 	onParent func(string) bool
+	hasParent func() bool
 	table    *mockRT
 	sent     map[string]*proto.RouteUpdate
 	tr       *truth
@@ -239,11 +240,11 @@ func (s *state) newCase(me, pt int, eth0 uint32) {
 	}
 	switch pt {
 	case 2:
-		s.mgr, s.onParent = intdataplane.VerifC43NewVXLAN(mockIPSets{}, s.table, mockFDB{}, "vxlan.calico", 1410, cfg, nl)
+		s.mgr, s.onParent, s.hasParent = intdataplane.VerifC43NewVXLAN(mockIPSets{}, s.table, mockFDB{}, "vxlan.calico", 1410, cfg, nl)
 	case 3:
-		s.mgr, s.onParent = intdataplane.VerifC43NewIPIP(s.table, "tunl0", 1440, cfg, nl)
+		s.mgr, s.onParent, s.hasParent = intdataplane.VerifC43NewIPIP(s.table, "tunl0", 1440, cfg, nl)
 	default:
-		s.mgr, s.onParent = intdataplane.VerifC43NewNoEncap(s.table, cfg, nl)
+		s.mgr, s.onParent, s.hasParent = intdataplane.VerifC43NewNoEncap(s.table, cfg, nl)
 	}
 }
 
@@ -518,7 +519,9 @@ func apply(s *state, op string) string {
 		return s.drain()
 	case "vtep":
 		n := atoi(w[1])
-		s.tr.vteps[n] = [2]uint32{atou(w[2]), atou(w[3])}
+		if atou(w[2]) != 0 { // a VTEP message without an IPv4 address is ignored by the v4 manager
+			s.tr.vteps[n] = [2]uint32{atou(w[2]), atou(w[3])}
+		}
 		msg := &proto.VXLANTunnelEndpointUpdate{Node: nodeName(n), Mac: "66:00:00:00:00:01", Ipv4Addr: ipOrEmpty(atou(w[2])), ParentDeviceIp: ipOrEmpty(atou(w[3]))}
 		if msg.Ipv4Addr == "" {
 			msg.Ipv6Addr = "fd00::1"
@@ -546,6 +549,9 @@ func apply(s *state, op string) string {
 		if err := s.mgr.CompleteDeferredWork(); err != nil {
 			return "err"
 		}
+		// the parent device, once detected through (mock) netlink, is retained by the manager:
+		// it is part of the manager's inputs, not of the datastore state
+		s.tr.parent = s.hasParent()
 		return s.showTable()
 	case "sent":
 		return s.showSent()
